@@ -8,6 +8,7 @@ import (
 	"os/exec"
 	"reflect"
 	"sort"
+	"strconv"
 	"strings"
 
 	"github.com/cosmos/cosmos-sdk/client"
@@ -53,6 +54,9 @@ func c14Domains(e *domEnv) []*msgDom {
 			if l == "" {
 				l = "empty"
 			}
+			if q := strconv.Quote(l); q != `"`+l+`"` && !strings.ContainsAny(l, "\"\\") {
+				l = q // byte strings with control characters are shown quoted
+			}
 			fd.Classes = append(fd.Classes, fclass{Label: l, Odd: i > 0, Set: func(m sdk.Msg) {
 				if v == "" {
 					set(m, nil)
@@ -83,11 +87,12 @@ func c14Domains(e *domEnv) []*msgDom {
 	}})
 	ds = append(ds, &msgDom{Name: "aol.MsgAddRecordRequest", New: func() sdk.Msg { return &aoltypes.MsgAddRecordRequest{} }, Fields: []fdom{
 		sv("topic_name", func(m sdk.Msg, v string) { m.(*aoltypes.MsgAddRecordRequest).TopicName = v }, "a", "b"),
-		bv("key", func(m sdk.Msg, v []byte) { m.(*aoltypes.MsgAddRecordRequest).Key = v }, "", "x", "y"),
+		// keys: text, binary (control bytes), and text that spells the base64 / hex rendering of another key of the domain
+		bv("key", func(m sdk.Msg, v []byte) { m.(*aoltypes.MsgAddRecordRequest).Key = v }, "", "x", "y", "eA==", "78", "\x01\x02\x03", "AQID", "010203"),
 		bv("value", func(m sdk.Msg, v []byte) { m.(*aoltypes.MsgAddRecordRequest).Value = v }, "", "x", "y",
 			// values that are themselves JSON (equivalent documents must still be different messages), and a JSON string that
 			// spells the base64 of another value
-			`{"a":1}`, `{"a": 1}`, `{"a":1,"a":2}`, `{"a":2}`, `9007199254740993`, `9007199254740992`, `"eA=="`, `"x"`, `null`, `[]`),
+			`{"a":1}`, `{"a": 1}`, `{"a":1,"a":2}`, `{"a":2}`, `9007199254740993`, `9007199254740992`, `"eA=="`, `"x"`, `null`, `[]`, "eA==", "\x01\x02\x03", "AQID", "010203"),
 		sv("writer_address", func(m sdk.Msg, v string) { m.(*aoltypes.MsgAddRecordRequest).WriterAddress = v }, W, B),
 		sv("owner_address", func(m sdk.Msg, v string) { m.(*aoltypes.MsgAddRecordRequest).OwnerAddress = v }, A, B),
 		sv("fee_payer_address", func(m sdk.Msg, v string) { m.(*aoltypes.MsgAddRecordRequest).FeePayerAddress = v }, "", F, A, W, B), // incl. the writer's own address
